@@ -5,7 +5,7 @@ EXTENDS Validator, Json
 \* history variables that do not influence the future are hidden from the
 \* fingerprint: two behaviours that differ only there are the same scenario
 View == <<scn, budget, advlog, pc, pend, inbox, msg, gi, gst, walk, node, tkeys, dsd,
-          ttl0, probes, entp, result>>
+          ttl0, probes, entp, run, hist, result>>
 
 \* deviations: what the code does today, per scenario (DESIGN 2.6)
 HasAct(S) == \E i \in 1..Len(advlog) : advlog[i].act \in S
@@ -24,9 +24,10 @@ SetToSeq(S) == CHOOSE f \in [1..Cardinality(S) -> S] : \A i, j \in DOMAIN f : i 
 AllowSeq == <<result>> \o SetToSeq(Allowed \ {result})
 
 Emit ==
-  Finished => PrintT("CASE " \o ToJson(
+  Finished /\ run = MaxRuns => PrintT("CASE " \o ToJson(
      [in  |-> [shape |-> scn.shape, denial |-> scn.denial, qk |-> scn.qk,
-               adv |-> advlog, allow |-> AllowSeq, oracle |-> Oracle,
+               adv |-> advlog, runs |-> [i \in 1..Len(hist) |-> hist[i].adv] \o <<advlog>>,
+               allow |-> AllowSeq, oracle |-> Oracle,
                fetches |-> fetches],
       exp |-> [state |-> result],
       dev |-> [d \in DevSet |-> DevOf(d)]]))
